@@ -461,7 +461,7 @@ func (u *Unit) Close() {
 			for i := range u.violations {
 				v := &u.violations[i]
 				_ = os.MkdirAll(repDir, 0o755)
-				name := fmt.Sprintf("%s-%s-%s-s%d-%d.json", u.Property, sanitize(u.Name), sanitize(v.Classifier), Seed(), shard*100+i)
+				name := fmt.Sprintf("%s-%s-%s-s%d-%d%s.json", u.Property, sanitize(u.Name), sanitize(v.Classifier), Seed(), shard*100+i, sanitize(os.Getenv("VERIF_PART")))
 				p := filepath.Join(repDir, name)
 				doc := map[string]any{
 					"property": u.Property, "unit": u.Name, "classifier": v.Classifier,
@@ -474,6 +474,9 @@ func (u *Unit) Close() {
 			}
 		}
 		base := fmt.Sprintf("%s.%d", sanitize(u.Name), shard)
+		if part := os.Getenv("VERIF_PART"); part != "" {
+			base += "." + sanitize(part)
+		}
 		hashFile := ""
 		if len(u.nontrivial) > 0 {
 			hashFile = filepath.Join(out, base+".hashes")
